@@ -151,6 +151,9 @@ func checkC07(c *Ctx) (int, error) {
 	c.ev.Level = "fault_enumeration"
 	c.ev.Assumptions = []string{"EVERY single bit flip and EVERY truncation point of each small container of the run is executed; double flips and byte substitutions are seeded samples; containers: gzip (with and without header fields, two members) and zlib (with and without dictionary) from several encoders",
 		"'matches the checksum': the harness's own container parser verifies CRC-32/ISIZE or Adler-32 of the reference inflater's output against the trailer bytes of the (corrupted) input"}
+	if err := c.ModelCheck("GzipMech", "MC_GzipMech.cfg", 5*time.Minute); err != nil {
+		return 0, err
+	}
 	rng := rand.New(rand.NewSource(c.Seed))
 	nCont, maxPayload, nExtra := 4, 40, 300
 	if c.Tier == "thorough" {
@@ -258,6 +261,9 @@ type memberFile struct {
 func checkC08(c *Ctx) (int, error) {
 	c.ev.Level = "model_checking"
 	c.ev.Assumptions = []string{"member sequences are exhaustive within the bounds of MemberGen (TLC); payload bytes, header fields and Read/bufio sizes are seeded samples"}
+	if err := c.ModelCheck("GzipMech", "MC_GzipMech.cfg", 5*time.Minute); err != nil {
+		return 0, err
+	}
 	maxM := 3
 	pay := `{"empty", "one", "big"}`
 	prod := `{"fastgo-2", "fastgo1", "std6"}`
